@@ -219,10 +219,13 @@ TEXT = {
           "representation (Alg.cmp_sound, cmpRat_sound, sgn_sound, floor_sound, valid_sound: the answer, when given, is the order / sign / "
           "floor of the denoted real). Arithmetic: the model builds the eliminant of x+y, x*y, x^n itself as a Sylvester determinant, "
           "encloses the exact value by closed interval arithmetic (image_encloses, proved) and refines until exactly one root of the "
-          "eliminant is enclosed; C07_select_sound proves that an accepted result then denotes the exact value. sub/div/neg/inv/root are "
-          "reduced to these (x-y = x+(-y), x/y = x*(1/y), r = root_n(x) iff r >= 0 and r^n = x located inside x's isolating interval). "
+          "eliminant is enclosed; C07_opEq_sound / C07_result_exact prove, with no assumption left, that an accepted result denotes exactly "
+          "alpha+beta, alpha*beta, alpha^n (via resultant_vanishes: the model's Sylvester determinant vanishes at common zeros, "
+          "eliminant_vanishes, selectLoop_spec, C07_select_sound). sub/div/neg/inv/root are reduced to these and the reductions are proved "
+          "too: neg_sound, inv_sound (reversed polynomial, interval away from 0), C07_sub_exact, C07_div_exact, isRootN_sound "
+          "(r >= 0, r^n inside x's isolating interval and f(r^n) = 0 => r^n = x). "
           "Results are also checked for the representation invariants (open isolating interval shorter than 1 without integers, cached "
-          "end-point signs, exactly one root). Trusted, not formalised: the classical fact that the eliminant vanishes at the exact value.",
+          "end-point signs, exactly one root). Non-vacuity: kernel-evaluated examples (sqrt2*sqrt2 = 2, sqrt2+sqrt3, (sqrt2)^3) in C07Exact.",
   "design_ref": "5.7",
   "note": "eliminants with deg f + deg g > 7 are skipped and counted; approximations are required to be within 2^-30 (relative for doubles)",
   "technique": "Lean 4 proved exact comparison / selection (validator) + per-output validation of the C results",
